@@ -127,10 +127,31 @@ def case_backtest(ctx, spec):
     return {"nontrivial": bool(costed) and held >= 2, "labels": labs}
 
 
-SUBS = {"history": case_history, "backtest": case_backtest}
-STRATS = {"history": machine.history_spec, "backtest": gen.backtest_spec}
+def case_fi(ctx, spec):
+    """fixed-income roots with coupon-paying securities: coupons less holding costs of the previous date enter the attribution"""
+    bt = ctx.bt
+    base = {k: v for k, v in spec.items() if k not in ("kinds", "weights", "nested")}
+    try:
+        b = c10.run_backtest(bt, base)
+    except Exception as e:
+        raise Discard("run raised (C10/C17's business): %s" % type(e).__name__)
+    s = b.strategy
+    attribution(bt, s, 1e6, tag="fi")
+    carry = any(isinstance(m, bt.core.CouponPayingSecurity) and ((np.asarray(m.coupons, dtype=float) != 0) | (np.asarray(m.holding_costs, dtype=float) != 0)).any() for m in s.members)
+    return {"nontrivial": bool(carry), "labels": ["carry"] if carry else []}
+
+
+SUBS = {"history": case_history, "backtest": case_backtest, "fi": case_fi}
+def _fi_spec():
+    from . import c17
+
+    return c17.run_spec()
+
+
+STRATS = {"history": machine.history_spec, "backtest": gen.backtest_spec, "fi": _fi_spec}
 
 
 def shard(ctx):
     run_sub(ctx, "history", machine.history_spec(min_ops=5, max_ops=30), lambda s: case_history(ctx, s), ctx.n(1600, 30000))
     run_sub(ctx, "backtest", gen.backtest_spec(), lambda s: case_backtest(ctx, s), ctx.n(1000, 20000))
+    run_sub(ctx, "fi", _fi_spec(), lambda s: case_fi(ctx, s), ctx.n(600, 10000))
